@@ -16,7 +16,7 @@ ENGINES = {
 CHECKS = {
  "C05": ("E1", "model_checking",
    "stateless model checking (iterative deviation-bounded DFS over all schedules of the real code)",
-   "Every interleaving of task polls, reply arrivals (all permutations), send stalls, flush stalls and artificial yields inside the critical sections of Session::rpc/recv is executed on the real netconf::Session, for 2-5 pipelined requests in three future placements, plus sends that fail before or after their bytes were delivered, up to the reported deviation bound (2- and 3-request cases to exhaustion in the thorough tier); each execution is checked for message-id uniqueness, own-reply delivery, absence of lost wake-ups/deadlocks and a usable session afterwards.",
+   "Every interleaving of task polls, reply arrivals (all permutations), send stalls, flush stalls and artificial yields inside the critical sections of Session::rpc/recv is executed on the real netconf::Session, for 2-5 pipelined requests in three future placements, plus sends that fail before or after their bytes were delivered, up to the reported deviation bound (2- and 3-request cases to exhaustion in the thorough tier), plus deep pipelines (33-130 requests outstanding before any reply is collected; on the real TLS / SSH / JunosLocal transports up to 300, thorough 1000); each execution is checked for message-id uniqueness, own-reply delivery, absence of lost wake-ups/deadlocks and a usable session afterwards.",
    "tokio::sync::Mutex and the hand-written executor are trusted; transport queues are unbounded; preemption between two non-awaiting statements inside one section is not explored.", "DESIGN.md §2 E1"),
  "C18": ("E1", "model_checking",
    "stateless model checking (deviation-bounded DFS over schedules including future-drop actions)",
@@ -36,11 +36,11 @@ CHECKS = {
    "Plan level (E2) plus the evaluation stage against a fake IRRd (E5): unknown as-set and D/E/F answers to the as-set query must make the evaluation fail, never yield a smaller set; an end-to-end slice resets the IRRd connection mid-run with literal-prefix policies installed (nothing may be deleted, in every evaluation order); the foreign-installed-states sweep of C02 applies its C03 clauses too; same trusted base as C01.", "DESIGN.md §2 E2"),
  "C16": ("E2", "exploration",
    "bounded-exhaustive enumeration of generated running configurations against an independent selection rule",
-   "Product of comment kinds x active attribute forms x extra/duplicate attributes x all attribute orders x statement bodies x names (incl. XML metacharacters), every single statement and every ordered pair of a representative subset, through the agent's real candidate reader.",
+   "Product of comment kinds x active attribute forms x extra/duplicate attributes x all attribute orders x statement bodies x names (incl. XML metacharacters), every single statement and every ordered pair of a representative subset, through the agent's real candidate reader; annotations folded over several lines; an end-to-end slice in which the fake Junos applies the agent's own get-config subtree filter (RFC 6241 s.6.2).",
    "The rpsl crate's parser defines 'parseable expression'.", "DESIGN.md §2 E2 (C16 sweep)"),
  "C08": ("E3", "exploration",
    "bounded-exhaustive enumeration of the reply grammar through the real session (all child sequences up to a length bound)",
-   "Every rpc-reply whose children are a sequence (length <= 4 quick / 5 thorough) over {positive indication, rpc-error of severity error / warning (plain and with every optional leaf), comment, foreign element, the other reply types' indication}, for each of the four reply types (ok, data, bare Junos, load-configuration with every placement inside/outside load-configuration-results and every load-error-count) is delivered to a real outstanding request; Ok requires the positive indication and no error-severity rpc-error anywhere, RpcError must list exactly the document's rpc-errors in order.",
+   "Every rpc-reply whose children are a sequence (length <= 4 quick / 5 thorough) over {positive indication, rpc-error of severity error / warning (plain and with every optional leaf), comment, foreign element, the other reply types' indication}, plus framed messages holding two rpc-reply elements, for each of the four reply types (ok, data, bare Junos, load-configuration with every placement inside/outside load-configuration-results and every load-error-count) is delivered to a real outstanding request; Ok requires the positive indication and no error-severity rpc-error anywhere, RpcError must list exactly the document's rpc-errors in order.",
    "Documents are drawn from the stated grammar, not all XML; quick-xml is the parser under test as used by the library.", "DESIGN.md §2 E3 C08"),
  "C09": ("E3", "exploration",
    "exhaustive capability-set x request-recipe matrix against an RFC 6241 table",
@@ -52,7 +52,7 @@ CHECKS = {
    "Hello matrix at MemTransport level plus a conforming peer on each real transport (TLS, SSH, JunosLocal) that frames as the negotiated version requires.", "DESIGN.md §2 E3 C12"),
  "C10": ("E3", "exploration",
    "bounded-exhaustive parameter x adversarial-value enumeration judged by an independent XML parser (python expat)",
-   "Every text-valued parameter of every operation (tokens, XPath select, instance names, log messages, text/set/JSON payloads, URLs), pairs of parameters, verbatim fragments and the agent's own policy payloads (names x expressions, update and delete) are serialised by the real request path for every value of an adversarial alphabet; expat must see exactly one well-formed document followed by the only occurrence of the delimiter and recover each value unchanged.",
+   "Every text-valued parameter of every operation (tokens, XPath select, instance names, log messages, text/set/JSON payloads, URLs), pairs of parameters, verbatim fragments (including well-formed ones that contain the delimiter, which must be refused or framed correctly), histories in which an earlier request failed half way through serialisation, and the agent's own policy payloads (names x expressions, update and delete) are serialised by the real request path for every value of an adversarial alphabet; expat must see exactly one well-formed document followed by the only occurrence of the delimiter and recover each value unchanged.",
    "Characters XML 1.0 cannot carry and fragments that contain the delimiter themselves are outside the alphabet.", "DESIGN.md §2 E3 C10"),
  "C13": ("E3", "exploration",
    "bounded-exhaustive rewrite neighbourhoods (all single and pairwise information-preserving rewrites at every position) with a differential oracle",
@@ -60,7 +60,7 @@ CHECKS = {
    "The value of <get> is the raw <data> content by design, so only acceptance is compared there.", "DESIGN.md §2 E3 C13"),
  "C14": ("E3", "exploration",
    "exhaustive one-edit mutation neighbourhoods (every offset / element / attribute / numeric field) of seed messages under a per-case watchdog",
-   "Every truncation, every substitution of 8 hostile bytes at every offset, every element/attribute deletion, duplication and sibling swap, every numeric field replaced by 10 hostile values, and prefix/suffix splices of 21 seed messages are delivered as the hello, as the reply to one of two outstanding requests, or as a get-config reply to the agent's readers: no panic (catch_unwind), every future resolves within a poll budget and a 10 s watchdog, and the other outstanding request still receives its own reply; in a second variant unattributable garbage arrives after both replies (late) and a follow-up request must still succeed.",
+   "Every truncation, every substitution of 8 hostile bytes at every offset, every element/attribute deletion, duplication and sibling swap, every numeric field replaced by 10 hostile values, prefix/suffix splices of 21 seed messages, and annotations with deeply nested parentheses are delivered as the hello, as the reply to one of two outstanding requests, or as a get-config reply to the agent's readers: no panic (catch_unwind), every future resolves within a poll budget and a 10 s watchdog, and the other outstanding request still receives its own reply; in a second variant unattributable garbage arrives after both replies (late) and a follow-up request must still succeed.",
    "One- and two-edit neighbourhoods of a finite seed set, not all byte strings; an abort (allocation failure, stack exhaustion) would be a machinery failure.", "DESIGN.md §2 E3 C14"),
  "C19": ("E7", "model_checking",
    "exhaustive exploration of outcome sequences x periods x signal plans of the real daemon loop in virtual time",
@@ -68,7 +68,7 @@ CHECKS = {
    "The job body is scripted (hook H4); signal/timer ties to the millisecond are not generated; for periods below one minute the monotonicity clause is not applied (see DESIGN).", "DESIGN.md §2 E7"),
  "C11": ("E5", "exploration",
    "bounded-exhaustive expression grammar x IRR databases against an independent per-prefix membership oracle",
-   "Every expression of a bounded grammar (as-set, aut-num, route-set, filter-set, literal prefix sets with every range operator, range operators on named sets, all binary AND/OR combinations, AND-NOT forms, depth-2 trees in the thorough tier) over 6 IRR databases (nested, cyclic, self-referencing and empty as-sets; ASes with IPv4 only, IPv6 only, both, none; duplicate route objects; nested route-sets; a filter-set with two objects) is evaluated by the real RpslEvaluator on a fresh connection to a fake IRRd; the printed output of the real bgpfu command (one expression of every shape per database) and the route-filters the agent installs over a three-run history with withdrawn routes are compared with the same oracle.",
+   "Every expression of a bounded grammar (as-set, aut-num, route-set, filter-set, literal prefix sets with every range operator, range operators on named sets, all binary AND/OR combinations, AND-NOT forms, depth-2 trees in the thorough tier) over 6 IRR databases (nested, cyclic, self-referencing and empty as-sets; route-sets whose members carry range operators; ASes with IPv4 only, IPv6 only, both, none; duplicate route objects; nested route-sets; a filter-set with two objects) is evaluated by the real RpslEvaluator on a fresh connection to a fake IRRd; the printed output of the real bgpfu command (one expression of every shape per database) and the route-filters the agent installs over a three-run history with withdrawn routes are compared with the same oracle.",
    "Recursive set expansion is done by the (fake) IRRd as the client requests; the oracle decides membership per prefix of a finite universe (two IPv4 and two IPv6 trees) without using the ip crate's set algebra.", "DESIGN.md §2 E5 C11"),
  "C17": ("E5", "model_checking",
    "exhaustive operation sequences (all histories up to a length bound x every single-fault injection) against a fresh-connection reference",
@@ -76,7 +76,7 @@ CHECKS = {
    "Connection loss mid-stream is not injected (irrc spins on EOF: dependency behaviour recorded in DESIGN).", "DESIGN.md §2 E5 C17"),
  "C04": ("E6", "fault_enumeration",
    "exhaustive fault enumeration: every fault kind at every position of the agent's request sequence, real agent end to end",
-   "The real agent (bgpfu_junos_agent::main, one-shot, local target through the stand-in cli of hook H2) runs against a fake Junos NETCONF server and a fake IRRd for N = 0..3 (thorough 0..4) managed policies; one fault per run at every position of open, get-config x2, load x N, commit, close-configuration, close-session and of every kind (rpc-error, warning+error, malformed reply, unknown message-id, re-used message-id, close before the reply, close after the reply, failing load reply delayed behind later loads); a slice with N = 1 repeats every position through the agent's remote (TLS) target. From the server's request log and the exit status: commit only after open and all N loads were positively acknowledged, no commit after a failed step, exit 0 iff every step was acknowledged, termination within the watchdog.",
+   "The real agent (bgpfu_junos_agent::main, one-shot, local target through the stand-in cli of hook H2) runs against a fake Junos NETCONF server and a fake IRRd for N = 0..3 (thorough 0..4) managed policies; one fault per run at every position of open, get-config x2, load x N, commit, close-configuration, close-session and of every kind (rpc-error, warning+error, malformed reply, unknown message-id, re-used message-id, close before the reply, close after the reply, failing load reply delayed behind later loads); a slice with N = 1 repeats every position through the agent's remote (TLS) target; runs also start from a non-empty instance; a slow-uplink scenario (stepping stand-in cli, one-page pipe, loads larger than the pipe) delivers the error reply to load k while the agent is blocked writing load k+1. From the server's request log and the exit status: commit only after open and all N loads were positively acknowledged, no commit after a failed step, exit 0 iff every step was acknowledged, termination within the watchdog.",
    "The fake Junos implements the Junos XML protocol as documented; the agent is built inside the harness workspace from /repo's crates (same main body as the shipped binary).", "DESIGN.md §2 E6 C04"),
  "C15": ("E6", "fault_enumeration",
    "enumeration of unevaluable-policy kinds x policy sets x observed evaluation orders, real agent end to end",
@@ -84,11 +84,11 @@ CHECKS = {
    "Evaluation order (HashMap iteration) is observed from the IRR query log, not forced; the repeat cap is reported.", "DESIGN.md §2 E6 C15"),
  "C06": ("E4", "exploration",
    "exhaustive enumeration of stream segmentations (cut positions, cut subsets of delimiter zones, groupings) against the real transports",
-   "On the real TLS (loopback, client certificates), SSH (netconf subsystem) and JunosLocal (stand-in cli, hook H2) transports the server hello and 1-3 pipelined replies are delivered in transport units cut at every position in and around each delimiter (every position of the stream in the thorough tier), at pairs and subsets of delimiter-zone cuts, byte by byte, and grouped several-per-unit, including replies larger than the transports' read buffers (64 KiB and 1 MiB bodies cut around buffer boundaries); a unit is released only after the client consumed the previous one, and nothing follows the last byte of a message until it was handed to the session layer. Results must be exactly the messages, once, in order.",
+   "On the real TLS (loopback, client certificates), SSH (netconf subsystem) and JunosLocal (stand-in cli, hook H2) transports the server hello and 1-3 pipelined replies are delivered in transport units cut at every position in and around each delimiter (every position of the stream in the thorough tier), at pairs and subsets of delimiter-zone cuts, byte by byte, and grouped several-per-unit, with hellos and replies whose size lands exactly on (and next to) buffer sizes from 1 KiB to 16 KiB (thorough 64 KiB), deep pipelines answered at once, including replies larger than the transports' read buffers (64 KiB and 1 MiB bodies cut around buffer boundaries); a unit is released only after the client consumed the previous one, and nothing follows the last byte of a message until it was handed to the session layer. Results must be exactly the messages, once, in order.",
    "Loopback only; read segmentation is verified through the client's own trace events on TLS and the pipe, and is by construction one packet per unit on SSH.", "DESIGN.md §2 E4 C06"),
  "C07": ("E4", "fault_enumeration",
    "exhaustive enumeration of close points x close kinds x outstanding requests against the real transports",
-   "On each real transport and for each close kind (clean / EOF / abort) the peer closes after every sampled (thorough: every) prefix of the hello, while the established session is idle, with 0-2 requests outstanding before any reply byte, after prefixes of the reply stream and between two replies, and (SSH) during connection setup before and after authentication; then a further request is issued. Every pending and subsequent operation must resolve within a watchdog calibrated per run (at least 1.5 s, 40x the measured establishment latency), without zero-length-read loops or CPU burn, and Ok is accepted only for replies that were completely delivered before the close.",
+   "On each real transport and for each close kind (clean / EOF / abort) the peer closes after every sampled (thorough: every) prefix of the hello, while the established session is idle, with 0-2 requests outstanding before any reply byte, after prefixes of the reply stream and between two replies, (SSH) during connection setup before and after authentication, and (SSH) while a request larger than the peer's channel window waits for a window adjustment; then a further request is issued. Every pending and subsequent operation must resolve within a watchdog calibrated per run (at least 1.5 s, 40x the measured establishment latency), without zero-length-read loops or CPU burn, and Ok is accepted only for replies that were completely delivered before the close.",
    "Real-time watchdog with three orders of magnitude of slack over loopback latency.", "DESIGN.md §2 E4 C07"),
  "C20": ("E4", "exploration",
    "exhaustive configuration matrix (transport x level x subscriber wiring x filter x outcome x secret) with an encoding search over the complete captured log",
